@@ -188,16 +188,20 @@ def run(rep, tier, seed, pa):
             lines.append(line)
             metas.append((dict(desc), bad, ctx, list(gts), cats, params, list(sampler._categories_weight), "reference"))
     # custom parameter sets
+    custom_sampler = [None]
     for ci in range(15 if tier == "quick" else 150):
         anns = rng.sample(["x1", "b", "Zed", "a a", "k"], rng.randrange(1, 5))
-        cats = rng.sample(["A", "B", "C", "dd", "e"], rng.randrange(1, 5))
+        cats = rng.sample(["A", "B", "C", "dd", "e"], 3 if ci % 2 else rng.randrange(1, 5))
         weights = None
         if rng.random() < 0.6:
             w = [rng.randrange(1, 5) for _ in cats]
             weights = [x / sum(w) for x in w]
         params = {"avg_nb": rng.choice([0.4, 2.0, 5.5]), "std_nb": rng.choice([0.0, 1.0, 3.0]), "avg_gap": rng.choice([-1.0, 0.5, 3.0]),
                   "std_gap": rng.choice([0.0, 2.0]), "avg_dur": rng.choice([0.0, 1.5, 10.0]), "std_dur": rng.choice([0.5, 4.0])}
-        sampler = pa.StatisticalContinuumSampler()
+        # custom parameter sets re-initialise ONE sampler object again and again (weights given, then not given, ...): nothing may leak
+        if custom_sampler[0] is None or ci % 5 == 4:
+            custom_sampler[0] = pa.StatisticalContinuumSampler()
+        sampler = custom_sampler[0]
         desc = {"custom": params, "annotators": anns, "categories": cats, "weights": weights}
         try:
             sampler.init_sampling_custom(anns, params["avg_nb"], params["std_nb"], params["avg_gap"], params["std_gap"], params["avg_dur"], params["std_dur"],
